@@ -259,7 +259,14 @@ class Inventory:
             if isinstance(r, tuple) and r[0] == "agg" and r[1] == "std::ops::Range" and len(r[3]) == 2:
                 hi = r[3][1]
                 if isinstance(hi, tuple) and hi[0] == "len" and mir.strip(hi[1]) == v:
-                    return "D2:index-is-the-induction-variable-of-a-range-up-to-len-of-the-same-vector"
+                    # ... whose bound was read once, before the loop: the vector must not lose elements inside the loop
+                    # (at most one per iteration when counting down: the index then stays below the new length)
+                    h = b.innermost_loop(x[2]) if isinstance(x[2], int) else None
+                    sh = self._loop_shrink(b, h, v) if h is not None else self.INF
+                    rev = x[1][2] == "rev"
+                    if sh == 0 or (rev and sh <= 1):
+                        return "D2:index-is-the-induction-variable-of-a-range-up-to-len-of-the-same-vector(which-does-not-shrink-under-it)"
+                    return None
                 # range up to len - 1 (prefix)
         # while-countdown: loopvar with guard Ge(i,0) and decreasing from len-1 (recognised by ktloops for the mapper)
         if isinstance(x, tuple) and x[0] == "loopvar":
@@ -291,7 +298,105 @@ class Inventory:
         from . import ktloops
         h = ivar[1]
         il = ktloops.index_loop(b, h, ktloops.loop_enclosing_events(b, h))
-        return il.kind == "while-countdown" and not [p for p in il.problems] and il.list_term == v
+        return il.kind == "while-countdown" and not [p for p in il.problems] and il.list_term == v and self._loop_shrink(b, h, v) <= 1
+
+    # ---- how many elements can one iteration of loop h take out of vector v?  (0, 1, or INF = unknown / several)
+    INF = 99
+    _ONE = ("remove", "swap_remove", "pop")
+    _MANY = ("truncate", "clear", "drain", "retain", "retain_mut", "dedup", "dedup_by", "dedup_by_key", "split_off", "shrink_to", "set_len")
+    _KEEP = ("push", "insert", "extend", "extend_from_slice", "append", "sort", "sort_by", "sort_by_key", "sort_unstable", "reverse", "iter_mut",
+             "get_mut", "last_mut", "first_mut", "index_mut", "as_mut_slice", "as_mut", "deref_mut", "next", "next_back", "reserve", "swap",
+             "borrow_mut", "fmt", "write_str", "write_fmt", "push_str")
+
+    def _loop_shrink(self, b, h, v):
+        memo = self.__dict__.setdefault("_shrink_memo", {})
+        key = ("L", b.path, h, v)
+        if key not in memo:
+            memo[key] = self.INF
+            try:
+                paths = mir.Walker(b, max_paths=6000).walk(h, start_is_header=True, stop_after_loop=True)
+                memo[key] = max([self._path_shrink(b, p, v, 0) for p in paths if p.outcome[0] not in ("unreachable", "infeasible")] or [0])
+            except mir.TooManyPaths:
+                pass
+        return memo[key]
+
+    def _path_shrink(self, b, p, v, depth):
+        n = 0
+        for e in p.events:
+            if e.kind == "store":
+                tgt = mir.strip(e.a)
+                if tgt == v or mir.mentions(v, tgt):
+                    return self.INF
+            elif e.kind == "loop":
+                # an inner loop that takes elements out on a continuing path can do so any number of times
+                try:
+                    inner = mir.Walker(b, max_paths=6000).walk(e.a, start_is_header=True, stop_after_loop=True)
+                except mir.TooManyPaths:
+                    return self.INF
+                for q in inner:
+                    if q.outcome == ("backedge", e.a) and self._path_shrink(b, q, v, depth) > 0:
+                        return self.INF
+            elif e.kind == "call":
+                m = method_name(e.a)
+                args = e.b
+                recv = mir.strip(args[0]) if args else None
+                local = self.ctx.F.bodies.get(e.a) is not None
+                if not local:
+                    if recv == v:
+                        if m in self._ONE:
+                            n += 1
+                        elif m in self._MANY:
+                            return self.INF
+                    if m == "append" and len(args) == 2 and mir.strip(args[1]) == v:
+                        return self.INF
+                    if m in ("take", "replace", "swap") and e.a.startswith("std::mem::") and any(mir.strip(a) == v for a in args):
+                        return self.INF
+                    if m not in self._ONE and m not in self._MANY and m not in self._KEEP:
+                        for r in (e.d or ()):
+                            r = mir.strip(r)
+                            if r == v or mir.mentions(v, r):
+                                return self.INF   # unknown std/foreign function holding `&mut` to (a container of) v
+                    continue
+                for k, a in enumerate(args):
+                    r = mir.strip(a)
+                    if r not in [mir.strip(x) for x in (e.d or ())]:
+                        continue
+                    if not (r == v or mir.mentions(v, r)):
+                        continue
+                    # v = r.f1.f2...  -> the same access path below the callee's parameter k
+                    chain = []
+                    t = v
+                    ok = True
+                    while t != r:
+                        if isinstance(t, tuple) and t[0] == "field":
+                            chain.append(t[2])
+                            t = mir.strip(t[1])
+                        else:
+                            ok = False
+                            break
+                    if not ok or depth >= 3:
+                        return self.INF
+                    n += self._callee_shrink(e.a, k, tuple(reversed(chain)), depth + 1)
+            if n >= self.INF:
+                return self.INF
+        return n
+
+    def _callee_shrink(self, name, k, chain, depth):
+        memo = self.__dict__.setdefault("_shrink_memo", {})
+        key = ("F", name, k, chain)
+        if key in memo:
+            return memo[key]
+        memo[key] = self.INF   # recursion guard
+        cb = self.ctx.body(name)
+        v2 = T("param", k + 1, cb.dbg.get(k + 1, ""))
+        for f in chain:
+            v2 = T("field", v2, f)
+        try:
+            paths = mir.Walker(cb, max_paths=6000).walk(0)
+            memo[key] = max([self._path_shrink(cb, p, v2, depth) for p in paths if p.outcome[0] not in ("unreachable", "infeasible")] or [0])
+        except mir.TooManyPaths:
+            pass
+        return memo[key]
 
     def _no_overflow(self, b, cond, guards):
         # cond = overflowed(op, a, b)
